@@ -334,6 +334,10 @@ func mutate(s, op string, n int) string {
 		return strings.ToUpper(s)
 	case "tail":
 		return s + "x"
+	case "space": // the same value as a person might paste it
+		return s + " "
+	case "lead":
+		return " " + s
 	}
 	return s
 }
